@@ -128,6 +128,17 @@ def panic_kind(r):
         return 'unwrap'
     if c.endswith('>::index') or c.endswith('>::index_mut'):
         return 'index'
+    # type-resolved std methods that take an index / range and panic when it is out of range or off a char boundary
+    for ty, ms in (('String::', ('truncate', 'remove', 'insert', 'insert_str', 'drain', 'split_off', 'replace_range')),
+                   ('str::', ('split_at', 'split_at_mut')),
+                   ('Vec::<T, A>::', ('remove', 'swap_remove', 'insert', 'drain', 'split_off')),
+                   ('VecDeque::<T, A>::', ('remove', 'insert', 'swap')),
+                   ('[T]::', ('split_at', 'split_at_mut', 'swap', 'copy_from_slice', 'clone_from_slice', 'chunks', 'chunks_exact', 'windows',
+                               'rotate_left', 'rotate_right')),
+                   ('RefCell::<T>::', ('borrow', 'borrow_mut'))):
+        for m in ms:
+            if c.endswith(ty + m):
+                return 'insert' if (ty, m) in (('Vec::<T, A>::', 'insert'), ('String::', 'insert'), ('VecDeque::<T, A>::', 'insert')) else 'method'
     if c.startswith('core::panicking::') or c.startswith('std::rt::begin_panic') or c.startswith('std::rt::panic') \
             or c.startswith('core::option::unwrap_failed') or c.startswith('core::result::unwrap_failed') or c.startswith('core::option::expect_failed'):
         return 'macro'
